@@ -485,7 +485,13 @@ func c11Ops(maxFault int) []c11Op {
 	}
 	ops = append(ops, c11Op{Kind: "list"}, c11Op{Kind: "restart"}, c11Op{Kind: "fail", Task: 0}, c11Op{Kind: "fail", Task: 1})
 	for _, k := range []string{"create", "pause", "resume", "delete"} {
-		for f := 1; f <= maxFault; f++ {
+		n := maxFault
+		if k == "create" {
+			// (a create makes more store calls than the others: listing, record, checkpoints, then the start's own reads and
+			// state write - the later ones fail the create AFTER its record has been written)
+			n = maxFault + 4
+		}
+		for f := 1; f <= n; f++ {
 			ops = append(ops, c11Op{Kind: k, Task: 0, Fault: f})
 		}
 	}
@@ -527,7 +533,7 @@ func TestVerifC11Lifecycle(t *testing.T) {
 	}
 	res.Bounds["depth"] = depth
 	res.Bounds["fault_call_indexes"] = maxFault
-	res.Rule = "BFS over histories of {create, pause, resume, delete, get of task t0|t1; list; restart; create/pause/resume/delete of t0 and restart with the metadata store failing at its n-th call} for configurations {same target, two targets} x {auto-start on, off for t0}; each history replayed on a fresh real MetaCDC over the real etcd stores on fakeetcd; after every step: only legal transitions succeed (fault-free operations), API = persisted = in-memory = gauge state for every task, reference count / quit functions / registered replication entity / catalog subscriptions / source stream registrations match the running tasks, no store record of a task that does not exist, every task has its checkpoint record; states deduplicated on (task states, store keys); non-trivial = histories containing an injected store fault"
+	res.Rule = "BFS over histories of {create, pause, resume, delete, get of task t0|t1; list; restart; create/pause/resume/delete of t0 and restart with the metadata store failing at its n-th call (create: n up to fault_call_indexes + 4, which reaches the store calls of the start that follows the record write)} for configurations {same target, two targets} x {auto-start on, off for t0}; each history replayed on a fresh real MetaCDC over the real etcd stores on fakeetcd; after every step: only legal transitions succeed (fault-free operations), API = persisted = in-memory = gauge state for every task, reference count / quit functions / registered replication entity / catalog subscriptions / source stream registrations match the running tasks, no store record of a task that does not exist, every task has its checkpoint record; states deduplicated on (task states, store keys); non-trivial = histories containing an injected store fault"
 	cfgs := []c11Cfg{{}, {TwoTargets: true}, {NoAuto: [2]bool{true, false}}, {NoID: true}}
 	ops := c11Ops(maxFault)
 	deadline := time.Now().Add(ev.Budget(150 * time.Second))
